@@ -3,7 +3,7 @@
 import sys, time
 sys.path.insert(0, "/verif/lib")
 import vlib
-for name in ["GenShapes_k8", "GenRecycled_k7", "GenPrint_s5", "TreeMacro7", "Gen_s5g0", "Gen_s4g2"]:
+for name in ["GenShapes_k8", "GenRecycled_k7", "GenShapesMulti_k7", "GenPrintShapes_k7", "TreeMacro8", "GenPrint_s5", "TreeMacro7", "Gen_s5g0", "Gen_s4g2"]:
     t = time.time()
     try:
         p, m = vlib.ensure_bundles(name, workers=8)
